@@ -1,5 +1,6 @@
 """C17 -- samplers interpolate within bounds and resampling follows the given mapping (DESIGN.md section 5, C17)"""
 import json, struct, collections
+import os
 import vlib
 
 VT = ["g8", "rgb8", "rgb8p", "g16", "g8s", "g32f", "sub", "trn"]
@@ -47,6 +48,16 @@ def gen_ops(ctx):
                 ops.append("rsz %s %s %d %d %d %d" % (vt, s, r.range(1, 7), r.range(1, 7), r.range(1, 9), r.range(1, 9)))
     # --- matrix3x2<double>
     def rnd(lo, hi): return lo + (hi - lo) * (r.below(1 << 30) / float(1 << 30))
+    # resample_pixels with arbitrary double matrices (rotation + scale + translation about the source): sample points off the grid,
+    # compared with the model's repetition of the IEEE double operation sequence
+    import math
+    for vt in VT:
+        for s in "bn":
+            for i in range(40 if th else 8):
+                w, h, dw, dh = r.range(1, 6), r.range(1, 6), r.range(1, 7), r.range(1, 7)
+                th_, sc = rnd(-3.2, 3.2), rnd(0.3, 2.0)
+                m = [sc * math.cos(th_), sc * math.sin(th_), -sc * math.sin(th_), sc * math.cos(th_), rnd(-2, w + 1), rnd(-2, h + 1)]
+                ops.append("resf %s %s %d %d %d %d %s" % (vt, s, w, h, dw, dh, " ".join(map(bits, m))))
     def rm():
         while True:
             m = [rnd(-4, 4) for _ in range(4)] + [rnd(-60, 60), rnd(-60, 60)]
@@ -77,7 +88,7 @@ def nontrivial(op):
 def points_of(op):
     w = op.split()
     if w[0] in ("bil", "near", "tap"): return int(w[8])
-    if w[0] in ("res", "rsz"): return int(w[5]) * int(w[6])
+    if w[0] in ("res", "rsz", "resf"): return int(w[5]) * int(w[6])
     return 1
 
 ASSUME = [
@@ -92,6 +103,8 @@ ASSUME = [
 def run(ctx, ops=None):
     obligations, discharged = vlib.standard_proof_steps(ctx)
     if any(b[0] == "theorem" and not b[1].startswith("C17_") for b in ctx.broken): discharged = 0
+    if not os.path.isfile(os.path.join(ctx.include, "boost/gil/extension/numeric/sampler.hpp")):
+        ctx.broken.append(("harness", "include root", "%s does not hold the headers under test" % ctx.include))
     binary, err = vlib.compile_harness(ctx, "harness/C17/main.cpp")
     samples, distinct, extra = [], 0, {}
     if binary is None:
@@ -118,7 +131,7 @@ def run(ctx, ops=None):
     return vlib.finish(ctx, "proof", obligations, discharged,
         rule="op lines: both samplers on a coordinate-recording virtual view over the complete 1/8-pixel grid of [-2,w+1]x[-2,h+1] for 19 source shapes from 1x1 (every row), "
              "values on 8 view kinds (gray8 complete grid, both point types; the others every third row) and on 1, 1/2, 1/4 grids; resample_pixels with random affine maps with entries k/8 "
-             "(library loop vs direct sample() loop vs model); resize_view same size and other sizes; matrix3x2<double> product / associativity / inverse / transform / round trip / generators on random "
+             "(library loop vs direct sample() loop vs model); resample_pixels with random rotation-scale-translation double matrices (model repeats the IEEE operations); resize_view same size and other sizes; matrix3x2<double> product / associativity / inverse / transform / round trip / generators on random "
              "well-conditioned matrices (bit patterns). non-trivial = grid row that crosses the view, non-identity map, any matrix op (distinct op lines counted)",
         samples=samples, distinct_nontrivial=distinct, assumptions=ASSUME, trusted_base=vlib.TRUSTED_BASE + [
             "no translated kernels for C17 (floating point templates): the model is hand-written and tied by the correspondence run only",
